@@ -180,6 +180,12 @@ def generate():
     two_level('fr', 'FetchResponse', [('partition', 'i32'), ('error', 'i16'), ('highwaterMark', 'i64'), ('record_set', 'bytes')],
               [('o', 'topic'), ('i', 'partition'), ('i', 'error'), ('i', 'highwaterMark'),
                ('x', "mkgen('afkak.kafkacodec.KafkaCodec._decode_message_set_iter', {inner}_e_record_set(data, {p}))")], 4)
+    # OffsetResponse (ListOffsets) v0: correlation_id:i32 [topic:str [partition:i32 error:i16 [offset:i64]]]
+    or_offs = Arr('or_offs', 'i64')
+    two_level('orr', 'OffsetResponse', [('partition', 'i32'), ('error', 'i16'), ('offsets', or_offs)],
+              [('o', 'topic'), ('i', 'partition'), ('i', 'error'),
+               ('x', "or_off_items(data, {inner}_e_pos_offsets(data, {p}), or_offs_cnt(data, {inner}_e_pos_offsets(data, {p})))")], 4)
+    gen_flatten1(out, 'or_off_items', 'int', or_offs, None)
     RESP_SCHEMAS['fr2'] = [('correlation_id', 'i32'), ('throttle', 'i32')] + RESP_SCHEMAS['fr'][1:]
     # ---- flat and one-level responses ---------------------------------------------------------------
     # FindCoordinator v0 response: correlation_id:i32 error:i16 node_id:i32 host:str port:i32
@@ -213,6 +219,20 @@ def generate():
     gen_struct(out, 'avr', avr)
     gen_flatten1(out, 'avr_api_items', 'ApiVersion', av, ['api_key', 'min_version', 'max_version'])
     RESP_SCHEMAS['avr'] = avr
+    # ---- schemas used by native-only reference parsing (bounded stand-ins; no symbolic spec functions generated) ----
+    # Metadata v0 response: correlation_id:i32 [node_id:i32 host:str port:i32]
+    #                       [error:i16 name:str [error:i16 partition:i32 leader:i32 [replica:i32] [isr:i32]]]
+    RESP_SCHEMAS['mdr'] = [('correlation_id', 'i32'),
+                           ('brokers', Arr('mdr_brokers', [('node_id', 'i32'), ('host', 'str_ascii'), ('port', 'i32')])),
+                           ('topics', Arr('mdr_topics', [
+                               ('error', 'i16'), ('name', 'str_ascii'),
+                               ('partitions', Arr('mdr_parts', [('error', 'i16'), ('partition', 'i32'), ('leader', 'i32'),
+                                                                ('replicas', Arr('mdr_replicas', 'i32')),
+                                                                ('isr', Arr('mdr_isr', 'i32'))]))]))]
+    # ConsumerProtocol member assignment v0: version:i16 [topic:str [partition:i32]] user_data:bytes
+    RESP_SCHEMAS['sgma'] = [('version', 'i16'),
+                            ('assignments', Arr('sgma_topics', [('topic', 'str_ascii'), ('partitions', Arr('sgma_parts', 'i32'))])),
+                            ('user_data', 'bytes')]
     return '\n'.join(out)
 
 
